@@ -63,7 +63,8 @@ META = {
         "an abstract test (Sequence, Iterable, ...) or none lets a plain string pass as the container of its characters (R1 applies the same to combinator validators "
         "in field metadata). in_(range(...)) options are evaluated over module constants. "
         "R9: every docutils setting converter named in _attr_to_optparse_option that splits a comma-delimited string itself strips the items and drops empty ones, "
-        "or delegates to docutils' validate_comma_separated_list, whose source is re-read as the oracle (strip + drop empties); and on their way into the result "
+        "or delegates to docutils' validate_comma_separated_list, whose source is re-read as the oracle (strip + drop empties) - the items are followed through every stage of a pipeline (names holding the split, generator "
+        "expressions, map/filter, list-like calls feeding the next stage); and on their way into the result "
         "the items are not transformed by any str method other than stripping (a lower()/replace() in one entry point makes the docutils spelling differ from the same "
         "value given as YAML dict, conf.py value or front matter - normalisation belongs in the shared validator). "
         "R11: an option a document may override is never read from the raw conf.py value (app.config / env.config myst_*, attribute, subscript or getattr) outside the function "
@@ -1958,16 +1959,44 @@ def _comma_split_sites(f: FunctionInfo) -> list[ast.Call]:
 WHITESPACE_ONLY = {"strip", "lstrip", "rstrip"}
 
 
+def _pipeline_sources(f: FunctionInfo, site: ast.AST) -> tuple[set[int], set[str]]:
+    """Everything that carries the items of ``site`` (a comma split) on: names it is assigned to, comprehensions /
+    map / filter / list-like calls over it - each of which is a source for the next stage
+    (``xs = (i.strip() for i in s.split(","))`` then ``dict.fromkeys(x for x in xs if x)``)."""
+    nodes: set[int] = {id(site)}
+    holders: set[str] = set()
+
+    def is_src(e: ast.AST) -> bool:
+        return id(e) in nodes or (isinstance(e, ast.Name) and e.id in holders)
+
+    changed = True
+    while changed:
+        changed = False
+        for n in f.local_nodes():
+            if isinstance(n, (ast.Assign, ast.AnnAssign, ast.NamedExpr)) and getattr(n, "value", None) is not None and id(n.value) in nodes:
+                tgts = n.targets if isinstance(n, ast.Assign) else [n.target]
+                for t in tgts:
+                    if isinstance(t, ast.Name) and t.id not in holders:
+                        holders.add(t.id)
+                        changed = True
+            elif isinstance(n, (ast.ListComp, ast.SetComp, ast.GeneratorExp)) and n.generators and is_src(n.generators[0].iter) and id(n) not in nodes:
+                nodes.add(id(n))
+                changed = True
+            elif isinstance(n, ast.Call) and id(n) not in nodes:
+                d = dotted(n.func) or ""
+                if (d in ("map", "filter") and len(n.args) == 2 and is_src(n.args[1])) or (d in ("list", "tuple", "sorted", "reversed", "iter") and n.args and is_src(n.args[0])):
+                    nodes.add(id(n))
+                    changed = True
+    return nodes, holders
+
+
 def _item_transforms(f: FunctionInfo, site: ast.Call) -> list[tuple[ast.AST, str]]:
     """(node, method) for every str method other than stripping that is applied to the items produced by ``site``
     (a comma split or a call of docutils' splitter) on their way into the result; tests in filters do not count."""
-    holders: set[str] = set()
-    for n in f.local_nodes():
-        if isinstance(n, ast.Assign) and n.value is site:
-            holders |= {t.id for t in n.targets if isinstance(t, ast.Name)}
+    src_nodes, holders = _pipeline_sources(f, site)
 
     def is_source(e: ast.AST) -> bool:
-        return e is site or (isinstance(e, ast.Name) and e.id in holders)
+        return id(e) in src_nodes or (isinstance(e, ast.Name) and e.id in holders)
 
     def calls_on(e: ast.AST, var: set[str]) -> list[tuple[ast.AST, str]]:
         # method calls whose receiver is (derived from) an item: k.lower(), k.strip().lower(), k.replace(...)
@@ -2012,16 +2041,11 @@ def _item_transforms(f: FunctionInfo, site: ast.Call) -> list[tuple[ast.AST, str
 
 def _split_site_verdict(f: FunctionInfo, site: ast.Call) -> tuple[bool, bool]:
     """(items stripped?, empty items dropped?) for one ``X.split(",")`` - Unsupported when the items are consumed in an unknown way."""
-    # names that hold the split result
-    holders: set[str] = set()
-    for n in f.local_nodes():
-        if isinstance(n, ast.Assign) and n.value is site:
-            for t in n.targets:
-                if isinstance(t, ast.Name):
-                    holders.add(t.id)
+    # the split result and every later stage of the pipeline that carries its items on
+    src_nodes, holders = _pipeline_sources(f, site)
 
     def is_source(e: ast.AST) -> bool:
-        return e is site or (isinstance(e, ast.Name) and e.id in holders)
+        return id(e) in src_nodes or (isinstance(e, ast.Name) and e.id in holders)
 
     def strips(e: ast.AST, var: set[str]) -> bool:
         for c in ast.walk(e):
@@ -2068,6 +2092,10 @@ def _split_site_verdict(f: FunctionInfo, site: ast.Call) -> tuple[bool, bool]:
                 stripped = True
             pa = parent(n)
             if isinstance(pa, ast.Call) and dotted(pa.func) == "filter" and pa.args and (is_const_none(pa.args[0]) or dotted(pa.args[0]) == "bool"):
+                filtered = True
+        elif isinstance(n, ast.Call) and dotted(n.func) == "filter" and len(n.args) == 2 and is_source(n.args[1]):
+            consumed = True
+            if is_const_none(n.args[0]) or dotted(n.args[0]) == "bool":
                 filtered = True
         elif isinstance(n, ast.Call) and dotted(n.func) in ("set", "list", "tuple", "frozenset", "sorted", "dict.fromkeys") and n.args and is_source(n.args[0]):
             consumed = True  # taken as they are
@@ -3693,4 +3721,19 @@ def mutants(corpus: Corpus):
     cp = find_node(mfl, lambda n: isinstance(n, ast.Assign) and _copy_kind(mfl, n.value, {mfl.params[0]}) == "validating")
     if cp is not None:
         out.append(Mutant("c13-per-document-config-is-a-shallow-copy", "C13.R4", main.rel, splice(main.src, cp, f"import copy as _copy_mod\n{_indent(main, cp)}{unparse(cp.targets[0])} = _copy_mod.copy({mfl.params[0]})"), expect="owns its mutable values"))
+    # ---- round 13: the same R9 obligations in a two-stage pipeline (generator of stripped items, then a filter)
+    du = corpus.mod("parsers.docutils_")
+    f = du.functions.get("_validate_url_schemes")
+    if f is not None:
+        for site in _comma_split_sites(f):
+            comp = parent(site)
+            while comp is not None and not isinstance(comp, (ast.DictComp, ast.ListComp, ast.SetComp, ast.GeneratorExp, ast.stmt)):
+                comp = parent(comp)
+            if isinstance(comp, ast.DictComp) and isinstance(parent(comp), ast.Assign):
+                st = parent(comp)
+                ind = _indent(du, st)
+                tgt = unparse(st.targets[0])
+                seg = _seg(du, site)
+                out.append(Mutant("c13-url-schemes-two-stage-split-keeps-empty-items", "C13.R9", du.rel, splice(du.src, st, f"_items = (i.strip() for i in {seg})\n{ind}{tgt} = dict.fromkeys(x for x in _items)"), expect="stripped and empty items dropped"))
+                out.append(Mutant("c13-url-schemes-two-stage-split-lower-cases-in-second-stage", "C13.R9", du.rel, splice(du.src, st, f"_items = (i.strip() for i in {seg})\n{ind}{tgt} = dict.fromkeys(x.lower() for x in _items if x)"), expect="items pass through unchanged"))
     return out
